@@ -5,7 +5,8 @@ package main
 //   ld start                                                             -> ok    (sessions run: Down)
 //   ld recv <ifid> <remote state>      accepted BFD control message      -> st <state> | st -
 //   ld recvt <ifid> <remote state>     the same followed by the detection time elapsing
-//   ld pkt <ingress> <egress>          packet that would leave through <egress>
+//   ld ohp <egress>                    valid one-hop packet from the internal side, first hop leaving through <egress>  -> fwd <egress>
+//   ld pkt <ingress> <egress>          SCION-path packet that would leave through <egress>
 //                                        -> fwd <egress> | scmp 5 <ia> <if> | scmp 6 <ia> <in> <eg>
 // The sessions are the real bfd.Sessions inside the real udpip links; messages reach them through
 // processPkt/processBFD; see router/verif_router2_verif.go for how a history is applied step by step.
@@ -186,6 +187,8 @@ func (c *c15) history(hidx int) {
 			evs = append(evs, ldEvent{kind: kind, ifID: id, state: []int{1, 2, 3, 3}[r.Intn(4)]})
 		case x < 45:
 			evs = append(evs, ldEvent{kind: "bad", ifID: id, state: r.Intn(4), badHow: r.Intn(7)})
+		case x < 52:
+			evs = append(evs, ldEvent{kind: "ohp", ifID: id})
 		default:
 			kind := []int{0, 0, 0, 1, 1, 2, 3, 3}[r.Intn(8)]
 			sc, hops := randScenario(a, r, kind, -1)
@@ -218,11 +221,6 @@ func (c *c15) history(hidx int) {
 		parked[key] = j
 		return true
 	}
-	defer func() {
-		if !abort && started {
-			c.ohpObservation(a)
-		}
-	}()
 	for k, ev := range evs {
 		if abort {
 			break
@@ -321,6 +319,8 @@ func (c *c15) history(hidx int) {
 			e.Case(fmt.Sprintf("bad:%d:%d:%d:%d", hidx, k, ev.ifID, ev.badHow), "bfd-discarded", false)
 		case "pkt":
 			c.probe(a, tw, ev, hidx, k)
+		case "ohp":
+			c.ohpProbe(a, tw, ev, hidx, k)
 		}
 	}
 }
@@ -430,23 +430,51 @@ func describeSCMP(raw []byte) string {
 
 var _ = addr.IA(0)
 
-// ohpObservation records (without judging) what the router does with a valid one-hop packet from the
-// internal network whose first hop leaves through a link that is currently down. processOHP does not
-// consult the link state; whether the statement covers one-hop packets is for the lead to decide.
-func (c *c15) ohpObservation(a *asCfg) {
-	for _, id := range []uint16{ifP, ifC, ifK} {
-		up, why := a.ifUp(id)
-		if up {
-			continue
+// ohpProbe: a valid one-hop packet from the internal network whose first hop leaves through ev.ifID.
+// processOHP forwards it whatever the link state (known finding C15/ohp-forwarded-over-down-link).
+func (c *c15) ohpProbe(a, tw *asCfg, ev ldEvent, hidx, k int) {
+	e := c.e
+	id := ev.ifID
+	i := a.ifByID(id)
+	info := path.InfoField{ConsDir: true, SegID: uint16(c.r.Intn(65536)), Timestamp: nowSec() - 5}
+	first := path.HopField{ConsEgress: id, ExpTime: 63}
+	copy(first.Mac[:], hopMacFull(a.key, info.SegID, info.Timestamp, first.ExpTime, 0, id)[:6])
+	q := ohpParams{src: a.ia, dst: i.nb, srcHost: hostIP("10.1.1.1"), dk: dIP4, p: onehop.Path{Info: info, FirstHop: first}, l4: l4UDP}
+	raw := q.raw(c.r)
+	if t := tw.dp.Process(raw, 0); t.Disp != router.VerifR2Forward || t.Egress != id {
+		e.Extra["generator-miss:ohp"] = fmt.Sprintf("twin disp=%d egress=%d", t.Disp, t.Egress)
+		return
+	}
+	op := fmt.Sprintf("ld ohp %d #%d.%d", id, hidx, k)
+	var res router.VerifR2Result
+	ans, ok := vlib.Safe(func() string {
+		res = a.dp.Process(raw, 0)
+		if res.Disp == router.VerifR2Forward {
+			return fmt.Sprintf("fwd %d", res.Egress)
 		}
-		i := a.ifByID(id)
-		info := path.InfoField{ConsDir: true, SegID: 7, Timestamp: nowSec() - 5}
-		first := path.HopField{ConsEgress: id, ExpTime: 63}
-		copy(first.Mac[:], hopMacFull(a.key, info.SegID, info.Timestamp, first.ExpTime, 0, id)[:6])
-		q := ohpParams{src: a.ia, dst: i.nb, srcHost: hostIP("10.1.1.1"), dk: dIP4, p: onehop.Path{Info: info, FirstHop: first}, l4: l4UDP}
-		res := a.dp.Process(q.raw(c.r), 0)
-		key := fmt.Sprintf("ohp-over-down-link/%s/disp%d", why, res.Disp)
-		n, _ := c.e.Extra[key].(int)
-		c.e.Extra[key] = n + 1
+		return fmt.Sprintf("disp%d slow=%d/%d", res.Disp, res.SlowType, res.SlowCode)
+	})
+	up, why := a.ifUp(id)
+	scope := "ext"
+	if i.sibling {
+		scope = "sib"
+	}
+	tag := fmt.Sprintf("ohp/%s/%s/%s", scope, why, strings.Fields(ans)[0])
+	if why == "nobfd" {
+		tag = "~" + tag
+	}
+	e.Op(op, ans, tag)
+	rep := map[string]any{"history": hidx, "event": k, "op": op, "raw": vlib.Hex(raw), "via": 0, "packet": "one-hop path",
+		"egress": id, "egress_scope": scope, "egress_link": why, "impl": ans, "config": a.modelCfg()}
+	if !ok {
+		e.Violate("C15/panic", ans, rep)
+		return
+	}
+	fwd := res.Disp == router.VerifR2Forward
+	switch {
+	case !up && fwd:
+		e.Violate("C15/ohp-forwarded-over-down-link", "one-hop-path packet forwarded over a link whose BFD session is not up ("+why+", "+scope+")", rep)
+	case up && !fwd:
+		e.Violate("C15/ohp-not-forwarded-over-usable-link", "valid one-hop packet not forwarded although the egress link is usable ("+why+")", rep)
 	}
 }
